@@ -521,6 +521,13 @@ theorem closeToTarget_spec (cfg : Config) (actual : Nat)
     · intro _; omega
     · intro _; omega
 
+/-- the one-sided test in action (condition min 3 / max 10 / target 60 s): an epoch ended by
+    `max_round_count` after 2 s is "close to target", so the next effective start (60000) lies in
+    the future of the recorded clock (2000) -/
+example : closeToTarget ⟨3, 10, 60000, 2⟩ 2000 = some true := by rfl
+example : (run ⟨3, 10, 60000, 2⟩ ⟨6, 5, 6, 0, 0, 0, some 0, [(2, 1), (1, 1)]⟩
+    [⟨10, 2000, [0, 1, 0, 1], 1, false⟩]).effStart = 60000 := by rfl
+
 /-- consequently `next_round` itself never panics for `u64`/`i64` inputs: every request is either
     accepted or rejected with one of the six declared errors -/
 theorem nextRound_never_panics (cfg : Config) (s : St) (op : Op)
